@@ -39,6 +39,7 @@ type Obligation struct {
 	GoalText string
 	smtKeep  string
 	smtFull  string
+	smtHyps  string
 	smtQF    string // sliced query with every quantified hypothesis dropped (first, cheap attempt)
 	logic    string
 	members  []*Obligation
@@ -1544,13 +1545,50 @@ func (x *Exec) assignedIn(n ast.Node) *frameInfo {
 			markL(e.X)
 		}
 	}
+	// ghost instrumentation bound to statements of this function ("ghostafter")
+	// writes ghost state wherever those statements occur
+	var gAfter []*GhostAnchor
+	if len(x.frames) > 0 {
+		if c := x.eng.cf.Contracts[x.frame().qual]; c != nil {
+			gAfter = c.GhostAfter
+		}
+	}
+	ghostWrites := func(st ast.Stmt) {
+		if len(gAfter) == 0 {
+			return
+		}
+		txt := x.eng.srcText(st)
+		for _, ga := range gAfter {
+			if !strings.HasPrefix(txt, ga.Anchor) {
+				continue
+			}
+			if ga.Eff.BulkKey != "" {
+				fi.heapKeys[ga.Eff.BulkKey] = true
+				continue
+			}
+			switch l := ga.Eff.LHS.(type) {
+			case *ast.Ident:
+				fi.heapKeys["global.ghost."+l.Name] = true
+			case *ast.SelectorExpr:
+				fi.heapKeys["*."+l.Sel.Name] = true
+			default:
+				fi.heapAll = true
+			}
+		}
+	}
 	ast.Inspect(n, func(n ast.Node) bool {
 		switch s := n.(type) {
+		case *ast.ExprStmt:
+			ghostWrites(s)
+		case *ast.DeclStmt:
+			ghostWrites(s)
 		case *ast.AssignStmt:
+			ghostWrites(s)
 			for _, l := range s.Lhs {
 				markL(l)
 			}
 		case *ast.IncDecStmt:
+			ghostWrites(s)
 			markL(s.X)
 		case *ast.RangeStmt:
 			if s.Key != nil {
@@ -1919,6 +1957,7 @@ type loopParts struct {
 	label     string
 	bodyN     ast.Node
 	postN     ast.Node
+	condN     ast.Node
 	extraObjs []types.Object
 	autoInv   func(st *State) *Term
 }
@@ -2041,7 +2080,7 @@ func (x *Exec) runLoopHavoc(st *State, lp *loopParts, spec *LoopSpec, ord int) *
 	}
 	// 2. havoc loop targets, assume invariant
 	h := st.clone()
-	x.havocLoopTargets(h, spec, lp.bodyN, lp.postN)
+	x.havocLoopTargets(h, spec, lp.bodyN, lp.postN, lp.condN)
 	for _, o := range lp.extraObjs {
 		if _, ok := h.env[o]; ok {
 			nv := x.freshValue(o.Type(), o.Name())
@@ -2110,6 +2149,7 @@ func (x *Exec) execFor(st *State, s *ast.ForStmt, label string) *State {
 	lp := &loopParts{node: s, label: label, bodyN: s.Body}
 	if s.Cond != nil {
 		lp.cond = func(st *State) *Term { return x.evalCond(st, s.Cond) }
+		lp.condN = s.Cond // a condition may have effects (it.next())
 	}
 	lp.body = func(st *State) *State { return x.execBlock(st, s.Body.List) }
 	if s.Post != nil {
